@@ -62,6 +62,23 @@ fn compat(msgs: &[&MRv]) -> Option<u8> {
     Some(k)
 }
 
+/// the model's `TwoDeltas`: at most two distinct stripped deltas, tie-consistent with each other
+fn two_deltas(msgs: &[&MRv]) -> bool {
+    let mut d: Vec<MRv> = Vec::new();
+    for m in msgs {
+        let s = strip(m);
+        if !d.contains(&s) {
+            d.push(s);
+        }
+    }
+    match d.len() {
+        0 => true,
+        1 => d[0].tie_ok(&d[0]),
+        2 => d[0].tie_ok(&d[1]),
+        _ => false,
+    }
+}
+
 struct Msg {
     origin: usize,
     key: String,
@@ -79,7 +96,14 @@ fn part_a(out: &mut Out, rng: &mut Rng, corpus: Option<u8>) {
     out.op(format!("INIT {} {}", n, causal as u8), "ok".into());
     let mut text = String::new();
     // which keys may change type in this history (cross-kind) and may carry expiry
-    let allow_type_change = corpus == Some(0) || (corpus.is_none() && rng.chance(1, 4));
+    let allow_type_change = corpus == Some(0) || corpus == Some(2) || (corpus.is_none() && rng.chance(1, 4));
+    // a fifth of the random histories open with concurrent first writes of DIFFERENT kinds on one
+    // key from two fresh nodes (equal Lamport time 1 on both), and half of those stay that small
+    let tie_open = corpus.is_none() && rng.chance(1, 5);
+    let tie_key = rng.pick(&KEYS).to_string();
+    let (tie_a, tie_b) = { let a = rng.below(n as u64) as usize; (a, (a + 1 + rng.below(n as u64 - 1) as usize) % n) };
+    let tie_small = rng.chance(1, 2);
+    let allow_type_change = allow_type_change || tie_open;
     let allow_expiry = corpus == Some(1) || (corpus.is_none() && rng.chance(1, 4));
     let mut key_kind: BTreeMap<String, u8> = BTreeMap::new();
     let script: Vec<(usize, u8, &str)> = match corpus {
@@ -87,14 +111,26 @@ fn part_a(out: &mut Out, rng: &mut Rng, corpus: Option<u8>) {
         Some(0) => vec![(0, 3, "h"), (0, 0, "h"), (0, 3, "h")],
         // SET k v1 PX 5000; SET k v2
         Some(1) => vec![(0, 1, "k"), (0, 0, "k")],
+        // concurrent first writes of two kinds with EQUAL Lamport time: node 0 SET h, node 1 HSET h
+        Some(2) => vec![(0, 0, "h"), (1, 3, "h")],
         _ => vec![],
     };
-    let steps = if corpus.is_some() { script.len() as u64 } else { rng.range(4, 40) };
+    let steps = if corpus.is_some() { script.len() as u64 } else if tie_open && tie_small { rng.range(2, 6) } else { rng.range(4, 40) };
     let mut fieldctr = 0;
     for st in 0..steps {
         let (i, kind, key): (usize, u8, String) = if corpus.is_some() {
             let s = script[st as usize];
             (s.0, s.1, s.2.to_string())
+        } else if tie_open && st < 2 {
+            if st == 0 { (tie_a, if rng.chance(1, 2) { 0 } else { 1 }, tie_key.clone()) } else { (tie_b, 3, tie_key.clone()) }
+        } else if tie_open && tie_small && st >= 2 {
+            // only deliveries (with duplicates) after the two concurrent writes
+            let idx = rng.below(sent.len().max(1) as u64) as usize;
+            let j = rng.below(n as u64) as usize;
+            if !sent.is_empty() {
+                deliver(out, &mut nodes, &sent, &mut log, j, idx, &mut text);
+            }
+            continue;
         } else if rng.chance(2, 5) && !sent.is_empty() {
             // deliver something (maybe duplicate)
             let idx = rng.below(sent.len() as u64) as usize;
@@ -165,6 +201,11 @@ fn part_a(out: &mut Out, rng: &mut Rng, corpus: Option<u8>) {
             deliver(out, &mut nodes, &sent, &mut log, j, idx, &mut text);
         }
     }
+    if corpus == Some(2) {
+        for (j, idx) in [(1, 0), (0, 1), (1, 0), (2, 1), (2, 0), (2, 1)] {
+            deliver(out, &mut nodes, &sent, &mut log, j, idx, &mut text);
+        }
+    }
     // final phase: deliver everything still missing (random order), for most histories
     let complete = corpus.is_some() || rng.chance(5, 6);
     if complete {
@@ -203,16 +244,20 @@ fn part_a(out: &mut Out, rng: &mut Rng, corpus: Option<u8>) {
         let vals: Vec<Option<MRv>> = nodes.iter().map(|nd| nd.replicated_keys.get(*key).map(MRv::from_real)).collect();
         let agree = vals.iter().all(|v| v.as_ref().map(strip) == vals[0].as_ref().map(strip));
         let agreeexp = vals.iter().all(|v| v.as_ref().map(|m| m.exp) == vals[0].as_ref().map(|m| m.exp));
+        let two = two_deltas(&mvals.iter().collect::<Vec<_>>());
         out.op(
             format!("CHECK {}", hex(key.as_bytes())),
-            format!("delivered={} compat={} agree={} agreeexp={}", delivered as u8, comp.map(|k| k.to_string()).unwrap_or("-".into()), agree as u8, agreeexp as u8),
+            format!("delivered={} compat={} two={} agree={} agreeexp={}", delivered as u8, comp.map(|k| k.to_string()).unwrap_or("-".into()), two as u8, agree as u8, agreeexp as u8),
         );
         if msgs.len() >= 2 && delivered {
             nontrivial = true;
         }
         let replay = json!({"history": text, "key": key, "nodes": n});
         if delivered && !agree {
-            if comp.is_some() {
+            if two {
+                // commutativity + idempotence suffice here (rs_converges_two_deltas): never a listed finding
+                out.violation("C06:rs-diverge:two-deltas", &format!("a key with at most two distinct deltas (kinds {:?}) was delivered everywhere, yet the replication states differ: {:?}", mvals.iter().map(|m| m.crdt.kind_name()).collect::<Vec<_>>(), vals.iter().map(|v| v.as_ref().map(|m| strip(m).show())).collect::<Vec<_>>()), replay);
+            } else if comp.is_some() {
                 out.violation("C06:rs-diverge:compatible-deltas", "all deltas of a key delivered everywhere, one kind, consistent registers, yet replication states differ", replay);
             } else {
                 out.violation("C06:cross-kind-order", "type change on a key: delivery order decides the surviving content", replay);
@@ -220,7 +265,13 @@ fn part_a(out: &mut Out, rng: &mut Rng, corpus: Option<u8>) {
         } else if delivered && agree && !agreeexp {
             out.violation("C06:expiry-merge-max", "expiry_ms diverges: merged by max / Some-wins on the receiver, overwritten on the writer", replay);
         }
-        out.count(&format!("a:check:delivered={},compat={},agree={}", delivered as u8, comp.is_some() as u8, agree as u8));
+        out.count(&format!("a:check:delivered={},compat={},two={},agree={}", delivered as u8, comp.is_some() as u8, two as u8, agree as u8));
+        if two && msgs.len() >= 2 && comp.is_none() && delivered {
+            out.count("a:two-deltas-cross-kind-delivered");
+            if mvals.len() >= 2 && mvals[0].t == mvals[1].t {
+                out.count("a:two-deltas-cross-kind-equal-time");
+            }
+        }
     }
     out.case(&text, nontrivial);
     out.sample(json!({"history": text}));
@@ -652,6 +703,13 @@ impl GCl {
                 (0..n).all(|j| j == m.0 || msgs.iter().any(|(idx2, m2)| m2.0 != j && self.applied.contains(&(j, *idx2)) && MRv::from_real(&m2.1.value) == mv))
             });
             let kinds: BTreeSet<u8> = msgs.iter().map(|(_, m)| MRv::from_real(&m.1.value).crdt.kind()).collect();
+            let mut distinct: Vec<MRv> = Vec::new();
+            for (_, m) in &msgs {
+                let sv = strip(&MRv::from_real(&m.1.value));
+                if !distinct.contains(&sv) {
+                    distinct.push(sv);
+                }
+            }
             let kind = match kinds.len() {
                 0 => "0".to_string(),
                 1 => kinds.iter().next().unwrap().to_string(),
@@ -678,7 +736,8 @@ impl GCl {
                     match why {
                         Some(r) if r.starts_with("C01:") => (r.to_string(), "conformance defect of the executor"),
                         Some(r) => (format!("C06:glue:outside-supported:{}", r), "outside the supported fragment; replicas diverge"),
-                        None if kinds.len() > 1 => ("C06:cross-kind-order".to_string(), "type change on the key: delivery order decides"),
+                        None if kinds.len() > 1 && distinct.len() > 2 => ("C06:cross-kind-order".to_string(), "type change on the key (three or more deltas): delivery order decides"),
+                        None if distinct.len() <= 2 => ("C06:glue:two-deltas-diverge".to_string(), "at most two distinct deltas (commutativity and idempotence suffice)"),
                         None => ("C06:glue:supported-history-diverges".to_string(), "supported history"),
                     }
                 } else {
@@ -959,6 +1018,7 @@ pub fn run(a: &Args) {
     let mut rng = Rng::new(a.seed);
     part_a(&mut out, &mut Rng::new(0xC06), Some(0));
     part_a(&mut out, &mut Rng::new(0xC06), Some(1));
+    part_a(&mut out, &mut Rng::new(0xC06), Some(2));
     for _ in 0..a.n {
         let mut r = rng.fork();
         part_a(&mut out, &mut r, None);
